@@ -292,6 +292,9 @@ fn spawn_async_ao_list_in_task<'a, SE: extensions::ShellExtensions>(
     }
 
     let join_handle = tokio::spawn(async move {
+        #[cfg(feature = "verif-hooks")]
+        crate::verif_pause::pause("jobstart").await;
+
         cloned_ao_list
             .execute(&mut cloned_shell, &cloned_params)
             .await
@@ -558,6 +561,11 @@ async fn spawn_pipeline_processes(
         }
 
         spawn_results.push_back(spawn_result);
+
+        #[cfg(feature = "verif-hooks")]
+        if pipeline_len > 1 {
+            crate::verif_pause::pause(&format!("spawn{current_pipeline_index}")).await;
+        }
     }
 
     Ok(spawn_results)
@@ -572,6 +580,11 @@ async fn wait_for_pipeline_processes_and_update_status(
     let mut result = ExecutionResult::success();
     let mut stopped_children = vec![];
     let mut last_failure_exit_code: Option<ExecutionExitCode> = None;
+
+    #[cfg(feature = "verif-hooks")]
+    if pipeline.seq.len() > 1 {
+        crate::verif_pause::pause("wait").await;
+    }
 
     // Clear our the pipeline status so we can start filling it out.
     shell.last_pipeline_statuses_mut().clear();
